@@ -4474,7 +4474,13 @@ class Pack:
                 self._data = self._data_load()
             except FileNotFoundError as exc:
                 raise PackFileDisappeared(self) from exc
-            self.check_length_and_checksum()
+            try:
+                self.check_length_and_checksum()
+            except BaseException:
+                # Do not keep data that failed the check: a later access
+                # would hand it out unchecked.
+                self._data = None
+                raise
         return self._data
 
     @property
